@@ -97,6 +97,8 @@ func (e *Eng) obligations() {
 	e.automaton()
 	e.codec()
 	e.codecConfig()
+	e.codecFlush()
+	e.marshalLiterals()
 
 	// ---- C16: who reads Message
 	e.messageReaders()
